@@ -274,6 +274,12 @@ impl Property for C33 {
         ]
     }
     fn run(&self, case: &Case) -> CaseResult {
+        crate::df::survey(run_case(case))
+    }
+}
+
+fn run_case(case: &Case) -> CaseResult {
+    {
         if case.cols.len() != egen::n_cols() || case.mask.is_empty() {
             return CaseResult::discard("malformed case");
         }
